@@ -280,10 +280,77 @@ class OutstationProp(Prop):
                 ops.append(("appiin", rng.below(16)))
         return ops
 
+    def soup(self, rng, cfg):
+        """a flat random walk over EVERY kind of op: any request kind (with and without response), its
+        retransmission, confirms of both kinds with near-miss sequence numbers, broadcasts and foreign masters,
+        updates, clock jumps around every configured timeout, disconnects - no structure assumed, so that
+        combinations nobody thought of are generated too"""
+        ops = [("add", "binary", 0, 1), ("add", "analog", 1, 2), ("add", "counter", 2, 3), ("add", "binary", 3, 0)]
+        seq = rng.below(16)
+        useq = 0
+        t = 100
+        last = None
+        times = [1, 2, cfg.get("confirm_ms", 5000), cfg.get("select_ms", 5000), cfg.get("retry_delay_ms", 5000)]
+        for _ in range(rng.range(6, 24)):
+            r = rng.below(22)
+            src = MASTER if not rng.chance(1, 15) else FOREIGN
+            bc = "none" if not rng.chance(1, 15) else rng.choice(["opt", "mand", "notreq"])
+            def rx(b):
+                ops.append(("rx", src, bc, hexs(b)))
+            if r == 0 and last is not None:
+                rx(last)
+            elif r == 1 and last is not None:
+                ops.append(("rx", MASTER, "none", hexs(last)))
+            elif r <= 3:
+                k = rng.below(4); t += 1 + rng.below(30)
+                typ = ["binary", "analog", "counter", "binary"][k]
+                ops.append(("update", typ, k, str(t & 1) if typ == "binary" else str(t), 1, t))
+            elif r <= 5:
+                base = rng.choice(times)
+                ops.append(("sleep", max(1, base + rng.choice([-2, -1, 0, 1, 2]))))
+            elif r == 6:
+                rx(frag(rng.choice([seq, (seq - 1) & 15, (seq + 1) & 15, rng.below(16)]), FN["confirm"]))
+            elif r == 7:
+                rx(frag(rng.choice([useq, (useq + 1) & 15, (useq - 1) & 15, rng.below(16)]), FN["confirm"], uns=True))
+                useq = (useq + rng.below(2)) & 15
+            elif r == 8:
+                ops.append(("disconnect",))
+            elif r == 9:
+                ops.append(("handler", rng.choice([0, 0, 0, 4]), rng.choice([0, 0, 0, 6])))
+            else:
+                kind = rng.choice(["read", "read", "write", "select", "operate", "direct", "direct_nr", "freeze", "freeze_nr", "freeze_clear_nr",
+                                   "cold", "warm", "enable", "disable", "delay", "record", "init_data", "assign", "bad"])
+                if kind == "read":
+                    b = frag(seq, FN["read"], read_classes(rng.choice([(1, 2, 3, 0), (1, 2, 3), (0,), (1,), (2, 3)])))
+                elif kind == "write":
+                    b = frag(seq, FN["write"], rng.choice([write_iin(7, 0), write_iin(4, 0) + write_iin(7, 0), g50v1(rng.below(1 << 48)), g50v3(rng.below(1 << 40))]))
+                elif kind in ("select", "operate", "direct", "direct_nr"):
+                    objs = self.rand_controls(rng) if last is None or not rng.chance(1, 2) or len(last) < 3 or last[1] not in (3, 4, 5, 6) else last[2:]
+                    b = frag(seq, FN[kind], objs)
+                elif kind.startswith("freeze"):
+                    b = frag(seq, FN[kind], bytes([0x14, 0x00, 0x06]))
+                elif kind in ("enable", "disable"):
+                    b = frag(seq, FN[kind], read_classes(rng.choice([(1, 2, 3), (1,), (2,), (3,), (0,)])))
+                elif kind == "bad":
+                    b = rng.choice([bytes([ctl(seq), 0x70]), bytes([ctl(seq)]), frag(seq, FN["read"], bytes([1])), bytes([ctl(seq, fin=False), 1]),
+                                    frag(seq, 129, bytes([0, 0])), frag(seq, FN["write"], bytes([0x50, 1, 0, 7]))])
+                else:
+                    b = frag(seq, FN[kind])
+                rx(b)
+                last = b
+                if not rng.chance(1, 4):
+                    seq = (seq + 1) & 15
+        return ops
+
     def cases_session(self, rng, n, focus=None, unsol=None, prefix="s"):
         out = []
         for i in range(n):
             cfg = self.base_cfg(rng, unsol)
+            if focus is None and i % 2 == 1:
+                ops = self.soup(rng, cfg)
+                sid = "%s_%s_%d" % (self.id.lower(), prefix, i)
+                out.append(Case(sid, script_text(sid, "outstation", cfg, ops), {"kind": "soup", "cfg": cfg}))
+                continue
             ops = self.history(rng, cfg, focus)
             sid = "%s_%s_%d" % (self.id.lower(), prefix, i)
             out.append(Case(sid, script_text(sid, "outstation", cfg, ops), {"kind": focus or "mixed", "cfg": cfg}))
